@@ -18,16 +18,19 @@ MANIFEST_ENTRY = {
             "complex amplitude <= 1 for masks in [0,1] (with and without slice tying), pure-phase amplitude = 1 for every mask, "
             "potential >= 0 under positivity, identical slices, amplitude idempotence (pure phase: always; complex: no mask or "
             "binary mask, with a machine-checked counterexample at mask value 1/2), Gram-Schmidt orthogonality / intensity "
-            "multiset / descending order by induction on the mode index under the clamp-inactive hypothesis, and the "
-            "weight/intensity normalisation. The model is tied to the code on every run by Float correspondence through the "
-            "public surface (tolerance rule; bit-exact on a dyadic Hadamard-mixture stream for Gram-Schmidt) and the property "
-            "predicate is evaluated on the real outputs.",
+            "multiset / descending order by induction on the mode index under the clamp-inactive hypothesis (counterexample with "
+            "the clamp active), mode intensity = w_k*M and total diffraction intensity = M (Parseval for the model's DFT from the "
+            "spectral core shared with C16). The model is tied to the code on every run by Float correspondence through the public "
+            "surface (obj_model.obj / apply_hard_constraints, probe_model.probe, _apply_weights, set_initial_probe / initial_probe, "
+            "a real preprocessed Ptychography object with the library's own FOV mask; tolerance rule; 4-ulp comparison on a dyadic "
+            "Hadamard-mixture stream for Gram-Schmidt) and the property predicate is evaluated on the real outputs.",
     "note": "Trusted: Lean kernel + propext/Classical.choice/Quot.sound; hand model validated by sampled correspondence only; "
-            "IEEE rounding, torch abs/angle/exp/fft2/argsort are modelled not verified. The total-diffraction-intensity theorem "
-            "takes Parseval for the model's dft2 as an explicit hypothesis (the predicate checks it numerically with numpy fft2). "
-            "Gaussian/Butterworth filters are excluded (as in the quantifier). Probe stacks whose Gram-Schmidt residual norms fall "
-            "below the absolute 1e-12 clamp are outside the theorems and the generator (measured separately, informational). "
-            "Known finding: complex objects with apply_fov_mask=True and a non-binary mask are not amplitude-idempotent.",
+            "IEEE rounding, torch abs/angle/exp/fft2/argsort are modelled not verified. Parseval for the model's O(N^2) dft2 is "
+            "imported from Lemmas/PtychoOpsForward.lean (PtychoOps.energy_dft2, built by the C16 check). "
+            "Gaussian/Butterworth filters are excluded (as in the quantifier). Known findings: complex objects with "
+            "apply_fov_mask=True and a non-binary mask are not amplitude-idempotent; probe stacks whose Gram-Schmidt residual norm "
+            "falls below the absolute clamp_min(1e-12) do not keep their intensities (both with machine-checked counterexamples "
+            "replayed on the real classes).",
     "technique": "Lean 4 proof (real-analysis lemmas, induction on the mode index) + model-vs-implementation correspondence",
 }
 RULE = ("one case = one constrained read of a model built from generated raw parameters; distinct non-trivial = distinct "
@@ -41,8 +44,10 @@ ASSUMPTIONS = [
     "Gram-Schmidt inputs: pairwise correlation <= 0.99, condition number <= 200, mode intensities pairwise >= 2% apart "
     "(torch.argsort is not stable: ties are outside the correspondence); residual norms far above the absolute 1e-12 clamp",
     "float32 configuration is compared with tol 5e-4 (library-forced precision), float64 configuration with 1e-9; "
-    "predicate tolerances: 1e-9 (float64) / 2e-5 (float32) relative",
-    "total diffraction intensity theorem assumes Parseval for the O(N^2) dft2 of Core/Dft (hypothesis of the theorem; measured by numpy fft2 in the predicate)",
+    "predicate tolerances: 1e-9 (float64) / 2e-5 (float32; 5e-5 for float32 Gram-Schmidt orthogonality/intensities, ~cond*eps32) relative",
+    "Gram-Schmidt theorems carry the hypothesis ClampInactive (every residual norm >= 1e-12); the single clamp-active witness of "
+    "Props/C10.lean is replayed as a known finding, other clamp-active stacks are not generated",
+    "the library stores initial_probe_weights in float32 whatever the configured precision: weight/total-intensity predicates use >= 2e-6",
 ]
 EXPLANATION = ("Theorems in Props/C10.lean are about Model/Constraints.lean; every run drives the real object/probe model classes and the "
                "model with the same generated raw tensors, masks, constraint dictionaries, weights and mean intensities and compares the "
@@ -324,7 +329,6 @@ def small(case):
 
 
 def run_object(ctx, drv, case):
-    import torch
     from quantem.diffractive_imaging.object_models import ObjectPixelated
     prec, t = case["prec"], case["type"]
     S, H, W = case["shape"]
@@ -335,9 +339,16 @@ def run_object(ctx, drv, case):
     m = ObjectPixelated.from_array(raw, slice_thicknesses=(1.0 if S > 1 else None), obj_type=t)
     m._initialize_obj((S, H, W), (1.0, 1.0))
     m.constraints = cons
-    route = case["route"]
     if mask is not None:
         m.mask = mask
+    check_object(ctx, drv, case, m, raw, cons, case["route"], "object")
+
+
+def check_object(ctx, drv, case, m, raw, cons, route, stream):
+    """correspondence + predicate for one constrained read of the object model `m` whose raw parameter is `raw`"""
+    import torch
+    prec, t = case["prec"], case["type"]
+    S, H, W = raw.shape
     with torch.no_grad():
         if route == "obj":
             o = m.obj
@@ -361,15 +372,15 @@ def run_object(ctx, drv, case):
              "fov": bool(cons["apply_fov_mask"])}
     tol, ptol = TOL[prec], PTOL[prec]
     ctx.count()
-    ctx.dist[f"object:{t}:{prec}"] += 1
-    ctx.dist[f"object:route={route}"] += 1
-    ctx.dist[f"object:mask={mcls}"] += 1
-    ctx.dist[f"object:slices={S}"] += 1
-    ctx.dist[f"object:identical={ident}"] += 1
+    ctx.dist[f"{stream}:{t}:{prec}"] += 1
+    ctx.dist[f"{stream}:route={route}"] += 1
+    ctx.dist[f"{stream}:mask={mcls}"] += 1
+    ctx.dist[f"{stream}:slices={S}"] += 1
+    ctx.dist[f"{stream}:identical={ident}"] += 1
     nontrivial = raw.size > 1 and not np.all(raw == raw.ravel()[0])
     if nontrivial:
-        ctx.mark(("object", prec, t, mcls, fov, ident, S > 1, bool(cons["positivity"]), bool(cons["fix_potential_baseline"]), route))
-    ctx.sample({k: case[k] for k in ("stream", "prec", "type", "shape", "route", "cons")} | {"mask_class": mcls})
+        ctx.mark((stream, prec, t, mcls, fov, ident, S > 1, bool(cons["positivity"]), bool(cons["fix_potential_baseline"]), route))
+    ctx.sample({k: case[k] for k in case if k not in ("raw", "mask")} | {"mask_class": mcls})
 
     if t == "potential":
         rep = drv.ask({"op": "obj_pot", "cons": lcons, "mask": None if mexp is None else enc_real2(mexp),
@@ -539,7 +550,8 @@ def run_gs(ctx, drv, case):
         ctx.stat_max(f"gs:{prec}:max_rel_dist", d)
         if not ok:
             ctx.disagree("gs", small(case), cx_to_list(model), cx_to_list(out), f"rel dist {d:.3g} > {TOL[prec]}")
-    gs_predicate(ctx, case, vs.reshape(n, H * W), out, 1e-12 if exact else PTOL[prec], "")
+    # float32 Gram-Schmidt loses ~cond*eps32 (cond <= 200 by construction): 5e-5
+    gs_predicate(ctx, case, vs.reshape(n, H * W), out, 1e-12 if exact else (PTOL[prec] if prec == "f64" else 5e-5), "")
 
 
 def run_weights(ctx, drv, case):
@@ -624,7 +636,67 @@ def run_weights(ctx, drv, case):
                       small(case), (mode_I / M).tolist(), wreq.tolist())
 
 
+def gen_pipeline_case(rng):
+    return {"stream": "pipeline", "prec": "f32", "type": rng.choice(["complex", "pure_phase", "potential"]),
+            "scan": [rng.randint(3, 6), rng.randint(3, 6)], "roi": rng.choice([[8, 8], [6, 8], [8, 6]]), "n": rng.randint(1, 3),
+            "pad": rng.choice([[8, 8], [4, 4], [8, 12], [16, 16], [0, 0]]),
+            "seed": rng.below(1000), "rng_seed": rng.below(1000), "rawseed": rng.below(1 << 30),
+            "fov": rng.chance(0.8), "positivity": rng.chance(0.7)}
+
+
+def run_pipeline(ctx, drv, case):
+    """a real preprocessed Ptychography object (props/ptycho_tiny): the FOV mask is the library's own Gaussian-blurred overlap
+    mask, the initial probe is what preprocess() produced from the measured mean intensity; the raw object parameter is then
+    driven to arbitrary values (as an optimiser would) and the object handed to the forward model is checked."""
+    import torch
+    from props import ptycho_tiny as pt
+    from qv.prng import Rng
+    set_prec("f32")
+    p = pt.make_ptycho(scan=tuple(case["scan"]), roi=tuple(case["roi"]), seed=case["seed"], rng_seed=case["rng_seed"],
+                       num_probes=case["n"], obj_type=case["type"], obj_padding_px=tuple(case.get("pad", (0, 0))))
+    om, pm = p.obj_model, p.probe_model
+    n = case["n"]
+    # --- initial probe: total diffraction intensity = measured mean intensity, default weights
+    M = float(pm.mean_diffraction_intensity)
+    ip = pm.initial_probe.detach().numpy().astype(np.complex128)
+    mode_I = np.sum(np.abs(np.fft.fft2(ip, norm="ortho")) ** 2, axis=(1, 2))
+    ctx.count()
+    ctx.dist[f"pipeline:probe:n={n}"] += 1
+    ctx.stat_max("pipeline:rel_total_intensity_error", abs(mode_I.sum() - M) / M)
+    if abs(mode_I.sum() - M) > PTOL["f32"] * M:
+        ctx.pred_fail("initial-probe-total-intensity:pipeline", "total diffraction intensity of the initial probe differs from the "
+                      "measured mean intensity", small(case), float(mode_I.sum()), M)
+    wreq = np.array([1 - 0.02 * (n - 1)] + [0.02] * (n - 1))
+    if float(np.max(np.abs(mode_I / M - wreq))) > PTOL["f32"]:
+        ctx.pred_fail("initial-probe-weights:pipeline", "relative mode intensities differ from the requested (default) weights",
+                      small(case), (mode_I / M).tolist(), wreq.tolist())
+    # the probe handed to the forward model (orthogonalisation on by default)
+    out = pm.probe.detach().numpy().astype(np.complex128).reshape(n, -1)
+    gs_predicate(ctx, case, ip.reshape(n, -1), out, 5e-5, ":pipeline")
+    # --- object: drive the raw parameter, read the constrained object with the library's own FOV mask
+    rng = Rng(case["rawseed"])
+    S, H, W = (int(x) for x in om.params.shape)
+    cnt = S * H * W
+    t = case["type"]
+    if t == "potential":
+        raw = np.array([gauss(rng) for _ in range(cnt)]).reshape(S, H, W)
+    else:
+        mag = np.array([10.0 ** rng.uniform(-2, 2) if rng.chance(0.3) else rng.uniform(0.0, 2.0) for _ in range(cnt)])
+        raw = (mag * np.exp(1j * np.array([rng.uniform(-math.pi, math.pi) for _ in range(cnt)]))).reshape(S, H, W)
+    raw = rnd(raw, "f32")
+    with torch.no_grad():
+        om.params.data = torch.tensor(raw, dtype=om.params.dtype)
+    cons = {"apply_fov_mask": bool(case["fov"]), "identical_slices": False, "positivity": bool(case["positivity"]),
+            "fix_potential_baseline": False, "fix_potential_baseline_factor": 1.0}
+    om.constraints = cons
+    mk = np.real(om.mask.detach().numpy())
+    ctx.stat_max("pipeline:fov_mask_max", float(mk.max()))
+    ctx.extra["pipeline_fov_mask_min_seen"] = min(ctx.extra.get("pipeline_fov_mask_min_seen", 1.0), float(mk.min()))
+    check_object(ctx, drv, case, om, raw, cons, "obj", "pipeline")
+
+
 RUNNERS = {"object": run_object, "tomo": run_tomo, "gs": run_gs, "gs_exact": run_gs, "weights": run_weights}
+
 
 # the model's counterexample (Props/C10.lean `amp_idempotent_complex_counterexample`): complex object 1, mask 1/2
 CEX_CASE = {"stream": "object", "prec": "f64", "type": "complex", "shape": [1, 1, 2], "route": "obj",
@@ -633,16 +705,39 @@ CEX_CASE = {"stream": "object", "prec": "f64", "type": "complex", "shape": [1, 1
             "raw": [[1.0, 0.0], [1.0, 0.0]], "mask": {"shape": [1, 2], "v": [0.5, 1.0]}}
 
 
-def clamp_probe_measure(ctx):
-    """informational: stacks whose norms are below the absolute 1e-12 clamp are outside the theorems (hypothesis
-    `ClampInactive`) and outside the generator; record what the real code does there."""
-    set_prec("f64")
-    vs = np.array([[3e-13, 0, 0, 0], [1e-13, 1e-13, 0, 0]], dtype=np.complex128).reshape(2, 2, 2)
-    pm = make_probe(vs, "f64", False)
-    out = pm.probe.detach().numpy()
-    Iin = np.sort(np.sum(np.abs(vs) ** 2, axis=(1, 2)))
-    Iout = np.sort(np.sum(np.abs(out) ** 2, axis=(1, 2)))
-    ctx.extra["clamp_active_probe_intensity_ratio(informational)"] = (Iout / Iin).tolist()
+# the model's counterexample (Props/C10.lean `gs_intensities_clamp_counterexample`): one mode of norm 1e-13 < clamp_min(1e-12)
+CLAMP_CASE = {"stream": "gs_clamp", "prec": "f64", "n": 1, "roi": [2, 2], "setter": False,
+              "modes": [[1e-13, 0.0], [0.0, 0.0], [0.0, 0.0], [0.0, 0.0]]}
+
+
+def run_gs_clamp(ctx, drv, case):
+    """clamp-active stack (outside the `ClampInactive` hypothesis of the theorems): correspondence with the model and the
+    intensity predicate, reported under its own key (known finding)."""
+    set_prec(case["prec"])
+    n = case["n"]
+    H, W = case["roi"]
+    vs = cx_from_list(case["modes"], (n, H, W))
+    pm = make_probe(vs, case["prec"], case["setter"])
+    out = pm.probe.detach().numpy().astype(np.complex128).reshape(n, H * W)
+    rep = drv.ask({"op": "gs", "modes": enc_cx2(vs.reshape(n, H * W))})
+    ctx.count()
+    ctx.dist["gs_clamp:witness"] += 1
+    if "ok" not in rep:
+        ctx.disagree("gs_clamp", small(case), rep, "ok", "driver error")
+        return
+    model = dec_cx2(rep["ok"]["modes"])
+    if not (model.shape == out.shape and np.allclose(out, model, rtol=1e-9, atol=0.0)):
+        ctx.disagree("gs_clamp", small(case), cx_to_list(model), cx_to_list(out), "clamp-active witness")
+    Iin = np.sort(np.sum(np.abs(vs.reshape(n, -1)) ** 2, axis=1))
+    Iout = np.sort(np.sum(np.abs(out) ** 2, axis=1))
+    ctx.extra["clamp_active_witness_intensity_ratio"] = (Iout / Iin).tolist()
+    if float(np.max(np.abs(Iout - Iin) / Iin)) > 1e-9:
+        ctx.pred_fail("gs-intensity-multiset:clamp-active", "multiset of mode intensities changed by orthogonalisation "
+                      "(residual norm below the absolute clamp_min(1e-12))", small(case), Iout.tolist(), Iin.tolist())
+
+
+RUNNERS["gs_clamp"] = run_gs_clamp
+RUNNERS["pipeline"] = run_pipeline
 
 
 def run(ctx):
@@ -653,9 +748,9 @@ def run(ctx):
     try:
         if not ctx.search_mode:
             run_object(ctx, drv, CEX_CASE)
-            clamp_probe_measure(ctx)
-        plan = [("object", ctx.n(260, 5000)), ("tomo", ctx.n(30, 400)), ("gs", ctx.n(110, 2500)),
-                ("gs_exact", ctx.n(60, 1500)), ("weights", ctx.n(90, 2000))]
+            run_gs_clamp(ctx, drv, CLAMP_CASE)
+        plan = [("object", ctx.n(260, 20000)), ("tomo", ctx.n(30, 1000)), ("gs", ctx.n(110, 8000)),
+                ("gs_exact", ctx.n(60, 5000)), ("weights", ctx.n(90, 6000)), ("pipeline", ctx.n(8, 60))]
         idx = 0
         for stream, cnt in plan:
             for _ in range(cnt):
@@ -670,8 +765,10 @@ def run(ctx):
                     case = gen_gs_case(rng, prec)
                 elif stream == "gs_exact":
                     case = gen_gs_exact_case(rng)
-                else:
+                elif stream == "weights":
                     case = gen_weights_case(rng, prec)
+                else:
+                    case = gen_pipeline_case(rng)
                 RUNNERS[stream](ctx, drv, case)
     finally:
         drv.close()
